@@ -1,2 +1,95 @@
--- stub: replaced by the C07 driver
-def main : IO Unit := pure ()
+/-
+  Driver.C07 — runs the C07 CodeModel (Golib.Udp.*) on operation lines.
+
+    W <type> <ver> <rec>            →  <hex of the writer's bytes>
+    R <type> <ver> <rec> <hex>      →  ok <rec of all struct fields after Read> <bytes left>  |  fail
+                                        (<rec> is the receiving pack before Read)
+    X <type> <ver>                  →  <carried field names, wire order>
+    G <type>                        →  <version constants of the layout>
+    K <type>                        →  <rec after Clear()> <rec after the constructor>
+    D <ver> <hex>                   →  <hex of Dbc after Process()>
+    N <4|8> <hex>                   →  ParseInt32 / ParseInt64 of the text
+    Z <int>                         →  <hex of ParseStringZeroToEmpty>
+    T <n> <hex>                     →  <hex of stringutil.Truncate(s, n)>
+
+  rec syntax   name=val;name=val   ("-" = empty)   val: i<int> s<hex> l<int,int> b0|b1 n t<hex,hex>
+-/
+import Golib.Udp.Packs
+import Golib.Udp.ParamKV
+import Driver.Common
+
+open Udp Drv
+
+def showVal : Val → String
+  | .int v => s!"i{v}"
+  | .str b => s!"s{hexOf b}"
+  | .ints xs => s!"l{listOf toString xs}"
+  | .bool b => if b then "b1" else "b0"
+  | .strs xs => s!"t{listOf hexOf xs}"
+  | .null => "n"
+
+def parseVal (s : String) : Option Val :=
+  match s.toList with
+  | 'i' :: r => (parseInt (String.ofList r)).map .int
+  | 's' :: r => (ofHex (String.ofList r)).map .str
+  | 'l' :: r => (parseList parseInt (String.ofList r)).map .ints
+  | ['b', '0'] => some (.bool false)
+  | ['b', '1'] => some (.bool true)
+  | ['n'] => some .null
+  | 't' :: r => (parseList ofHex (String.ofList r)).map .strs
+  | _ => none
+
+def parseRec (s : String) : Option Rec :=
+  if s == "-" then some (fun _ => .null) else
+  (s.splitOn ";").foldlM (fun (r : Rec) kv =>
+    match kv.splitOn "=" with
+    | [k, v] => (parseVal v).map (fun v => r.set k v)
+    | _ => none) (fun _ => .null)
+
+def showRec (names : List String) (r : Rec) : String :=
+  if names.isEmpty then "-" else ";".intercalate (names.map fun n => s!"{n}={showVal (r n)}")
+
+def answer (line : String) : String :=
+  match line.splitOn " " with
+  | ["W", t, ver, rec] =>
+    match findPack t, parseInt ver, parseRec rec with
+    | some t, some ver, some x => hexOf (t.layout.write ver x)
+    | _, _, _ => "bad-op"
+  | ["R", t, ver, rec, hex] =>
+    match findPack t, parseInt ver, parseRec rec, ofHex hex with
+    | some t, some ver, some st, some bs =>
+      match P.run (t.layout.read ver st) bs with
+      | some (st', rest) => s!"ok {showRec t.fieldNames st'} {rest.length}"
+      | none => "fail"
+    | _, _, _, _ => "bad-op"
+  | ["X", t, ver] =>
+    match findPack t, parseInt ver with
+    | some t, some ver => listOf id (t.layout.carried ver)
+    | _, _ => "bad-op"
+  | ["G", t] =>
+    match findPack t with
+    | some t => listOf toString t.layout.gates.eraseDups
+    | none => "bad-op"
+  | ["K", t] =>
+    match findPack t with
+    | some t => s!"{showRec t.fieldNames t.clearedRec} {showRec t.fieldNames t.freshRec}"
+    | none => "bad-op"
+  | ["D", ver, hex] =>
+    match parseInt ver, ofHex hex with
+    | some ver, some bs => hexOf (processDbc ver bs)
+    | _, _ => "bad-op"
+  | ["N", w, hex] =>
+    match parseNat w, ofHex hex with
+    | some w, some bs => toString (parseIntW w bs)
+    | _, _ => "bad-op"
+  | ["Z", v] =>
+    match parseInt v with
+    | some v => hexOf (zeroToEmpty v)
+    | none => "bad-op"
+  | ["T", n, hex] =>
+    match parseNat n, ofHex hex with
+    | some n, some bs => hexOf (bs.take n)
+    | _, _ => "bad-op"
+  | _ => "bad-op"
+
+def main : IO Unit := statelessLoop answer
